@@ -445,52 +445,96 @@ def generate_edges(chk, module, cfg, timeout=1800, args=(), heap="12g", workers=
     return edges, sorted(set(inits)), res
 
 
-def simulate_walks(chk, module, cfg, num, depth, seed, timeout=1800):
+def simulate_walks(chk, module, cfg, num, depth, seed, timeout=1800, keep_states=False, mode="simulate"):
     """Role B by seeded TLC simulation.  This TLC evaluates the action constraint (Emit) on every
     candidate successor of every simulated step, not only on the chosen one (measured by the
     announcer family).  Consecutive records with the same pre-state form one level of candidates;
     the behaviour TLC followed is rebuilt by chaining: the chosen candidate is one whose post-state is
     the next level's pre-state (a seeded choice among several such candidates, each of them being a
-    transition of the model from that state).  Where nothing chains, a behaviour ended."""
+    transition of the model from that state).  Where nothing chains, a behaviour ended.
+    Memory: only hashes of the states are kept (plus the canonical strings when keep_states);
+    returns walks of {"act", "pre_h", "post_h"[, "pre_c", "post_c"]} and res.init_states {hash: state}.
+    mode="generate" uses TLC's -generate instead of -simulate: it picks a sub-action and one successor at random
+    without enumerating all successors, and evaluates the action constraint on the chosen transition only
+    (measured: 200 behaviours of depth 40 of AllocMC_count_sim in 1.5 s and 8 000 lines, against 45 s and
+    1.2 million candidate lines with -simulate), so every level has exactly one record."""
     import random
-    levels = []   # [prekey, [records]]
-    inits = set()
+    rnd = random.Random(seed * 104729 + 7)
+    inits = {}
     extra = {}
+    walks = []
+    st = {"pend": None, "cur": [], "ncand": 0}   # pend = [prehash, [candidate records of one level]]
+
+    def h(c):
+        return hashlib.md5(c.encode()).digest()
+
+    def close_level(nxt):
+        # the previous level is complete: pick the candidate TLC followed (chains to nxt), drop the rest
+        pk, recs = st["pend"]
+        cur = st["cur"]
+        if cur and cur[-1]["post_h"] != pk:
+            walks.append(cur)
+            cur = st["cur"] = []
+        cands = [r for r in recs if nxt is not None and r["post_h"] == nxt]
+        cur.append(rnd.choice(cands if cands else recs))
 
     def sink(o):
         if "init" in o:
-            inits.add(canon(o["init"]))
+            inits[h(canon(o["init"]))] = o["init"]
             extra.update({k: v for k, v in o.items() if k != "init"})
             return
         if "pre" not in o:
             return
-        pk = canon(o["pre"])
-        if levels and levels[-1][0] == pk:
-            levels[-1][1].append(o)
+        pc, qc = canon(o["pre"]), canon(o["post"])
+        rec = {"act": o["act"], "pre_h": h(pc), "post_h": h(qc)}
+        if keep_states:
+            rec["pre_c"], rec["post_c"] = pc, qc
+        st["ncand"] += 1
+        if mode == "generate":
+            # one record per step; a behaviour ends where the chain breaks or after `depth` steps at an initial state
+            cur = st["cur"]
+            if cur and (cur[-1]["post_h"] != rec["pre_h"] or (len(cur) >= depth and rec["pre_h"] in inits)):
+                walks.append(cur)
+                cur = st["cur"] = []
+            cur.append(rec)
+        elif st["pend"] is not None and st["pend"][0] == rec["pre_h"]:
+            st["pend"][1].append(rec)
         else:
-            levels.append([pk, [o]])
+            if st["pend"] is not None:
+                close_level(rec["pre_h"])
+            st["pend"] = [rec["pre_h"], [rec]]
 
     res = tlc(chk.work, module, cfg, workers=1, timeout=timeout,
-              args=["-simulate", "num=%d" % num, "-depth", str(depth), "-seed", str(seed)], json_sink=sink)
+              args=["-" + mode, "num=%d" % num, "-depth", str(depth), "-seed", str(seed)], json_sink=sink)
     if res.error and "timeout" in str(res.error):
         raise Inconclusive("TLC simulate %s: %s" % (cfg, res.error))
-    rnd = random.Random(seed * 104729 + 7)
-    walks, cur = [], []
-    for k, (pk, recs) in enumerate(levels):
-        if cur and (canon(cur[-1]["post"]) != pk):
-            walks.append(cur)
-            cur = []
-        nxt = levels[k + 1][0] if k + 1 < len(levels) else None
-        cands = [r for r in recs if nxt is not None and canon(r["post"]) == nxt]
-        cur.append(rnd.choice(cands if cands else recs))
-    if cur:
-        walks.append(cur)
+    if st["pend"] is not None:
+        close_level(None)
+    if st["cur"]:
+        walks.append(st["cur"])
+    ncand = st["ncand"]
     # a behaviour always starts in an initial state; drop fragments that do not (cannot be replayed)
-    walks = [w for w in walks if canon(w[0]["pre"]) in inits] if inits else walks
+    walks = [w for w in walks if w[0]["pre_h"] in inits] if inits else walks
     res.extra = extra
+    res.init_states = inits
     log("  %s: simulated %d walks, %d steps (%d candidate records) in %.1fs"
-        % (cfg, len(walks), sum(map(len, walks)), sum(len(l[1]) for l in levels), res.wall))
+        % (cfg, len(walks), sum(map(len, walks)), ncand, res.wall))
     return walks, res
+
+
+def iter_walk_obs(path):
+    """Stream an observation file walk by walk (the lines of one walk are contiguous)."""
+    cur, curw = [], None
+    with open(path) as fh:
+        for line in fh:
+            o = json.loads(line)
+            if o["w"] != curw and cur:
+                yield curw, cur
+                cur = []
+            curw = o["w"]
+            cur.append(o)
+    if cur:
+        yield curw, cur
 
 
 def write_scenarios(path, walks_as_steps, init, prefix="w"):
